@@ -28,9 +28,29 @@ package verifyield
 // Hook is set by the simulator's scheduler.
 var Hook func()
 
+// LockHook / UnlockHook tell the scheduler that the running task entered / is about to leave a
+// critical section (X.Lock(), X.RLock(), X.Do(...)): a task is never parked while it holds a
+// lock, otherwise the task released next could block inside the Go runtime on that lock and the
+// simulation would deadlock.
+var LockHook, UnlockHook func()
+
 // Y is a soft yield point.
 func Y() {
 	if h := Hook; h != nil {
+		h()
+	}
+}
+
+// Locked is called right after a lock was taken.
+func Locked() {
+	if h := LockHook; h != nil {
+		h()
+	}
+}
+
+// Unlocked is called right before a lock is released.
+func Unlocked() {
+	if h := UnlockHook; h != nil {
 		h()
 	}
 }
@@ -60,9 +80,44 @@ func yieldStmt() ast.Stmt {
 	return &ast.ExprStmt{X: &ast.CallExpr{Fun: &ast.SelectorExpr{X: ast.NewIdent("verifyield"), Sel: ast.NewIdent("Y")}}}
 }
 
+func hookStmt(name string) ast.Stmt {
+	return &ast.ExprStmt{X: &ast.CallExpr{Fun: &ast.SelectorExpr{X: ast.NewIdent("verifyield"), Sel: ast.NewIdent(name)}}}
+}
+
+// methodCall returns the method name of a statement of the form X.M(...) ("" otherwise).
+func methodCall(e ast.Expr) (string, int) {
+	if c, ok := e.(*ast.CallExpr); ok {
+		if sel, ok := c.Fun.(*ast.SelectorExpr); ok {
+			return sel.Sel.Name, len(c.Args)
+		}
+	}
+	return "", 0
+}
+
 func rewriteList(list []ast.Stmt) []ast.Stmt {
 	out := make([]ast.Stmt, 0, 2*len(list))
 	for _, s := range list {
+		switch x := s.(type) {
+		case *ast.ExprStmt:
+			switch m, nargs := methodCall(x.X); {
+			case (m == "Lock" || m == "RLock") && nargs == 0:
+				out = append(out, yieldStmt(), s, hookStmt("Locked"))
+				continue
+			case (m == "Unlock" || m == "RUnlock") && nargs == 0:
+				out = append(out, hookStmt("Unlocked"), s)
+				continue
+			case m == "Do" && nargs == 1:
+				// sync.Once.Do runs its argument under the Once's own lock
+				out = append(out, yieldStmt(), hookStmt("Locked"), s, hookStmt("Unlocked"))
+				continue
+			}
+		case *ast.DeferStmt:
+			if m, nargs := methodCall(x.Call); (m == "Unlock" || m == "RUnlock") && nargs == 0 {
+				body := &ast.BlockStmt{List: []ast.Stmt{hookStmt("Unlocked"), &ast.ExprStmt{X: x.Call}}}
+				out = append(out, yieldStmt(), &ast.DeferStmt{Call: &ast.CallExpr{Fun: &ast.FuncLit{Type: &ast.FuncType{Params: &ast.FieldList{}}, Body: body}}})
+				continue
+			}
+		}
 		out = append(out, yieldStmt(), s)
 	}
 	return out
